@@ -1,93 +1,70 @@
-(* C20 proofs *)
+(* C20 proofs: general lemmas, readyState monotone, closed at rest *)
 From Coq Require Import List Arith Bool Lia.
 Import ListNotations.
 From Verif Require Import Model.ReadyState.
 
-(* ---------- handlers at most once (faithful model, every schedule) ---------- *)
-Definition once_inv (s : st) : Prop :=
-  open_calls s = (if open_fired s then 1 else 0) /\
-  close_calls s = (if close_fired s then 1 else 0).
+(* ---------- tactics ---------- *)
+Lemma Some_inj : forall A (x y : A), Some x = Some y -> x = y.
+Proof. intros A x y H. injection H as H. exact H. Qed.
 
-Lemma once_store : forall s r, once_inv s -> once_inv (store s r).
-Proof. intros s r H. exact H. Qed.
-Lemma once_upd : forall s g h dcc rls gn o pcd remd rld cl,
-  once_inv s -> once_inv (upd s g h dcc rls gn o pcd remd rld cl).
-Proof. intros. assumption. Qed.
-Lemma once_fire_open : forall s, once_inv s -> once_inv (fire_open s).
-Proof.
-  intros s [H1 H2]. unfold fire_open.
-  destruct (graceful s); cbn; [split; assumption|].
-  destruct (open_fired s) eqn:E; cbn; [split; [rewrite E|]; assumption|].
-  split; cbn; [rewrite H1; reflexivity|exact H2].
-Qed.
-Lemma once_fire_close : forall s, once_inv s -> once_inv (fire_close s).
-Proof.
-  intros s [H1 H2]. unfold fire_close.
-  destruct (close_fired s) eqn:E; cbn; [split; [|rewrite E]; assumption|].
-  split; cbn; [exact H1|rewrite H2; reflexivity].
-Qed.
+(* split the hypothesis [H : <step function> = Some s'] into its branches *)
+Ltac break_hyp H :=
+  repeat match type of H with
+         | context [match ?x with _ => _ end] =>
+             let E := fresh "E" in destruct x eqn:E
+         end;
+  try discriminate H.
 
-Lemma once_step : forall s t s', once_inv s -> step s t = Some s' -> once_inv s'.
+Ltac step_inv H :=
+  break_hyp H; apply Some_inj in H; subst.
+
+(* ---------- lists ---------- *)
+Lemma Forall_set_nth : forall A (P : A -> Prop) j x l,
+  Forall P l -> P x -> Forall P (set_nth j x l).
 Proof.
-  intros s t s' I H.
-  destruct t as [|[|[|[|j]]]]; cbn in H.
-  - unfold open_step in H. destruct (o_pc s); [destruct (graceful s)| |discriminate];
-      injection H as <-; auto using once_upd, once_fire_close, once_fire_open, once_store.
-  - unfold pcclose_step in H. destruct (pc_done s); [discriminate|]. injection H as <-.
-    auto using once_upd, once_store.
-  - unfold remote_step in H. destruct (rem_done s); [discriminate|]. injection H as <-.
-    auto using once_upd.
-  - unfold rl_step in H. destruct (rl_started s && gone s && negb (rl_done s)); [|discriminate].
-    injection H as <-. auto using once_upd, once_fire_close, once_store.
-  - unfold close_step in H. destruct (nth_error (closers s) j) as [[|h|h|]|]; try discriminate.
-    + injection H as <-. auto using once_upd.
-    + destruct (rstate_eqb (rs s) Closed); injection H as <-; unfold set_closers; auto using once_upd.
-    + injection H as <-. auto using once_upd, once_store.
+  intros A P j x l. revert j. induction l as [|a t IH]; intros j Hl Hx; [destruct j; constructor|].
+  inversion Hl; subst. destruct j; cbn; constructor; auto.
 Qed.
 
-Lemma once_run : forall sch s, once_inv s -> once_inv (run s sch).
+Lemma Forall_nth_error : forall A (P : A -> Prop) l j x,
+  Forall P l -> nth_error l j = Some x -> P x.
 Proof.
-  induction sch as [|t rest IH]; intros s I; [exact I|].
-  cbn. destruct (step s t) eqn:Hs; [|apply IH; exact I].
-  apply IH. eapply once_step; eauto.
+  intros A P l j x Hl Hj. rewrite Forall_forall in Hl. apply Hl. eapply nth_error_In; eauto.
 Qed.
 
-Lemma handlers_at_most_once : forall n sch,
-  open_calls (run (init n) sch) <= 1 /\ close_calls (run (init n) sch) <= 1.
+Lemma nth_set_nth_same : forall A j (x y : A) l,
+  nth_error l j = Some y -> nth_error (set_nth j x l) j = Some x.
 Proof.
-  intros n sch. assert (once_inv (run (init n) sch)) as [H1 H2].
-  { apply once_run. split; reflexivity. }
-  rewrite H1, H2. destruct (open_fired _), (close_fired _); lia.
+  intros A j x y l. revert j. induction l as [|a t IH]; intros j H.
+  - destruct j; discriminate.
+  - destruct j; cbn in *; [reflexivity|]. eapply IH. exact H.
 Qed.
 
-(* ---------- Send ---------- *)
-Lemma send_not_open : forall s, rs s <> Open -> send s = SendClosedPipe.
-Proof. intros s H. unfold send. destruct (rs s); try reflexivity. congruence. Qed.
+Lemma nth_set_nth_other : forall A i j (x : A) l,
+  i <> j -> nth_error (set_nth j x l) i = nth_error l i.
+Proof.
+  intros A i j x l. revert i j. induction l as [|a t IH]; intros i j H.
+  - destruct j; reflexivity.
+  - destruct j, i; cbn; try reflexivity; [congruence|]. apply IH. congruence.
+Qed.
 
-(* ---------- witnesses (faithful model) ---------- *)
-Lemma refuted_close_window :
-  let s := run (init 1) [4; 4; 1; 4] in
-  hist s = [Closed; Closing] /\ monotone s = false /\ rs s = Closing /\ pc_done s = true.
-Proof. vm_compute. repeat split; reflexivity. Qed.
+(* ---------- runs ---------- *)
+Lemma run_inv : forall v c (P : st -> Prop),
+  (forall s t s', P s -> step v c s t = Some s' -> P s') ->
+  forall sch s, P s -> P (run v c s sch).
+Proof.
+  intros v c P Hstep. induction sch as [|t rest IH]; intros s Hs; [exact Hs|].
+  cbn. destruct (step v c s t) eqn:E; [|apply IH; exact Hs].
+  apply IH. eapply Hstep; eauto.
+Qed.
 
-Lemma refuted_open_window :
-  let s := run (init 1) [0; 4; 4; 4; 0] in
-  hist s = [Closing; Open] /\ monotone s = false /\ rs s = Open /\ rl_started s = false.
-Proof. vm_compute. repeat split; reflexivity. Qed.
+Lemma run_app : forall v c a b s, run v c s (a ++ b) = run v c (run v c s a) b.
+Proof.
+  intros v c. induction a as [|t r IH]; intros b s; [reflexivity|].
+  cbn [app run]. destruct (step v c s t); apply IH.
+Qed.
 
-Lemma refuted_open_after_pcclose :
-  let s := run (init 0) [0; 1; 0] in
-  hist s = [Closed; Open] /\ monotone s = false.
-Proof. vm_compute. repeat split; reflexivity. Qed.
-
-(* sequential: Close while connecting, the channel opens, the transport goes *)
-Lemma refuted_never_closed :
-  let s := run (init 1) [4; 4; 4; 0; 2; 3] in
-  closers s = [CDone] /\ o_pc s = ODone /\ gone s = true /\ close_calls s = 1 /\
-  monotone s = true /\ rs s = Closing /\ step s 3 = None.
-Proof. vm_compute. repeat split; reflexivity. Qed.
-
-(* ---------- the guarded model: windows atomic, handleOpen not after PeerConnection.Close ---------- *)
+(* ---------- readyState only moves forward (post, every schedule) ---------- *)
 Lemma last_cons_default : forall (t : list rstate) a r, last (a :: t) r = last t a.
 Proof.
   induction t as [|b u IH]; intros a r; [reflexivity|].
@@ -103,222 +80,93 @@ Proof.
   - cbn [app monotone_from]. rewrite IH, last_cons_default, andb_assoc. reflexivity.
 Qed.
 
-Lemma last_snoc : forall (l : list rstate) r x, last (l ++ [x]) r = x.
-Proof. intros. apply last_last. Qed.
+Definition good (s : st) : Prop :=
+  monotone_from Connecting (hist s) = true /\ last (hist s) Connecting = rs s.
 
-Definition no_set (c : cpc) : Prop := match c with CSet _ => False | _ => True end.
-Definition is_start (c : cpc) : Prop := c = CStart.
-
-Lemma Forall_set_nth : forall A (P : A -> Prop) j x l,
-  Forall P l -> P x -> Forall P (set_nth j x l).
+Lemma good_store : forall s r, good s -> good (store post s r).
 Proof.
-  intros A P j x l. revert j. induction l as [|a t IH]; intros j Hl Hx; [destruct j; constructor|].
-  inversion Hl; subst. destruct j; cbn; constructor; auto.
+  intros s r [Hm Hl]. unfold good, store, dropped. cbn.
+  destruct (Nat.leb (rank r) (rank (rs s))) eqn:E; [split; assumption|].
+  split; [|apply last_last].
+  rewrite monotone_snoc, Hm, Hl. cbn. apply Nat.leb_le. apply Nat.leb_gt in E. lia.
 Qed.
 
-Lemma nth_set_nth_same : forall A j (x y : A) l,
-  nth_error l j = Some y -> nth_error (set_nth j x l) j = Some x.
+(* what a step does to (rs, hist): nothing, or a few stores *)
+Inductive stores : st -> st -> Prop :=
+| stores_same : forall s s', rs s' = rs s -> hist s' = hist s -> stores s s'
+| stores_store : forall s s1 s' r,
+    stores s s1 -> rs s' = rs (store post s1 r) -> hist s' = hist (store post s1 r) -> stores s s'.
+
+Lemma good_stores : forall s s', stores s s' -> good s -> good s'.
 Proof.
-  intros A j x y l. revert j. induction l as [|a t IH]; intros j H.
-  - destruct j; discriminate.
-  - destruct j; cbn in *; [reflexivity|]. eapply IH. exact H.
+  intros s s' H. induction H as [s s' Hr Hh|s s1 s' r _ IH Hr Hh]; intros G.
+  - destruct G as [Gm Gl]. unfold good. rewrite Hr, Hh. split; assumption.
+  - specialize (IH G). apply (good_store s1 r) in IH. destruct IH as [Gm Gl].
+    unfold good. rewrite Hr, Hh. split; assumption.
 Qed.
 
-Lemma set_nth_twice : forall A j (x y : A) l, set_nth j y (set_nth j x l) = set_nth j y l.
+Ltac stores_tac :=
+  first [ solve [apply stores_same; reflexivity]
+        | solve [eapply stores_store; [apply stores_same; reflexivity|reflexivity|reflexivity]]
+        | solve [eapply stores_store;
+                 [eapply stores_store; [apply stores_same; reflexivity|reflexivity|reflexivity]
+                 |reflexivity|reflexivity]] ].
+
+Lemma step_stores : forall c s t s', step post c s t = Some s' -> stores s s'.
 Proof.
-  intros A j x y l. revert j. induction l as [|a t IH]; intros j; [destruct j; reflexivity|].
-  destruct j; cbn; [reflexivity|]. rewrite IH. reflexivity.
+  intros c s t s' H. destruct t; cbn [step] in H.
+  - unfold open_step, open_tail in H. cbn [fix_state post] in H. step_inv H; stores_tac.
+  - unfold pcclose_step in H. step_inv H; stores_tac.
+  - unfold remote_step in H. step_inv H; stores_tac.
+  - unfold rl_step in H. step_inv H; stores_tac.
+  - unfold close_step in H. step_inv H; stores_tac.
+  - unfold reg_open_step in H. step_inv H; stores_tac.
+  - unfold reg_close_step in H. step_inv H; stores_tac.
+  - step_inv H; stores_tac.
+  - step_inv H; stores_tac.
+  - unfold detach_step in H. step_inv H; stores_tac.
+  - apply Some_inj in H. subst. stores_tac.
 Qed.
 
-Record invA (s : st) : Prop := {
-  a_mono : monotone_from Connecting (hist s) = true;
-  a_last : last (hist s) Connecting = rs s;
-  a_opc : o_pc s <> OSetOpen;
-  a_cl : Forall no_set (closers s);
-  a_f1 : graceful s = false -> pc_done s = false -> o_pc s = OStart -> rs s = Connecting;
-  a_f2 : graceful s = false -> Forall is_start (closers s);
-  a_f3 : rl_started s = true -> o_pc s = ODone;
-  a_f4 : pc_done s = true \/ rl_done s = true -> rs s = Closed;
-  a_f5 : rl_done s = true -> rl_started s = true
-}.
+Lemma good_init : forall c, good (init c).
+Proof. intros c. split; reflexivity. Qed.
 
-Lemma invA_init : forall n, invA (init n).
+Lemma good_run : forall c sch, good (run post c (init c) sch).
 Proof.
-  intros n. constructor; cbn; try reflexivity; try discriminate; auto.
-  - apply Forall_forall. intros c Hc. apply repeat_spec in Hc. subst. exact I.
-  - intros _. apply Forall_forall. intros c Hc. apply repeat_spec in Hc. exact Hc.
-  - intros [H|H]; discriminate.
+  intros c sch. apply (run_inv post c good); [|apply good_init].
+  intros s t s' G H. eapply good_stores; [eapply step_stores; eauto|exact G].
 Qed.
 
+Lemma monotone_full : forall c sch, monotone (run post c (init c) sch) = true.
+Proof. intros c sch. apply (good_run c sch). Qed.
+
+(* closed is final *)
 Lemma rank_closed_max : forall r, rank r <= 3.
 Proof. destruct r; cbn; lia. Qed.
 
-Lemma Some_inj : forall A (x y : A), Some x = Some y -> x = y.
-Proof. intros A x y H. injection H as H. exact H. Qed.
-Ltac inj H := apply Some_inj in H; subst.
-
-Lemma invA_step : forall s t s', invA s -> stepA s t = Some s' -> invA s'.
+Lemma store_closed_stays : forall s r, rs s = Closed -> rs (store post s r) = Closed.
 Proof.
-  intros s t s' A H.
-  pose proof (a_mono _ A) as Hm. pose proof (a_last _ A) as Hl.
-  destruct t as [|[|[|[|j]]]].
-  - (* handleOpen, both blocks *)
-    cbn in H. destruct (pc_done s) eqn:Hpc; [discriminate|].
-    unfold open_step in H. destruct (o_pc s) eqn:Ho.
-    + destruct (graceful s) eqn:Hg.
-      * (* closed during connecting: dc.Close(); onClose() *)
-        unfold fire_close in H; cbn in H. destruct (close_fired s); cbn in H; rewrite ?Ho in H; cbn in H;
-          inj H; constructor; cbn; auto; try (apply A); try discriminate;
-          rewrite ?Hg; try discriminate.
-      * cbn in H. unfold open_step in H. cbn in H.
-        pose proof (a_f1 _ A Hg Hpc Ho) as Hrs.
-        assert (rl_done s = false) as Hrl.
-        { destruct (rl_done s) eqn:E; [|reflexivity].
-          pose proof (a_f3 _ A (a_f5 _ A E)) as Hx. congruence. }
-        unfold fire_open in H. cbn in H. rewrite ?Hg in H. cbn in H.
-        destruct (open_fired s); cbn in H; rewrite ?Hg in H; cbn in H; inj H;
-          constructor; cbn; auto; try (apply A); try discriminate;
-          try (rewrite monotone_snoc, Hm, Hl, Hrs; reflexivity);
-          try (apply last_snoc);
-          try (intros [Hx|Hx]; congruence);
-          try (intros _; apply (a_f2 _ A Hg)).
-    + exfalso. exact (a_opc _ A Ho).
-    + discriminate.
-  - (* PeerConnection.Close *)
-    cbn in H. unfold pcclose_step in H. destruct (pc_done s) eqn:Hpc; [discriminate|].
-    cbn in H. inj H. constructor; cbn; auto; try (apply A); try discriminate.
-    + rewrite monotone_snoc, Hm. cbn. apply Nat.leb_le. apply rank_closed_max.
-    + apply last_snoc.
-  - (* remote close *)
-    cbn in H. unfold remote_step in H. destruct (rem_done s); [discriminate|].
-    cbn in H. inj H. constructor; cbn; auto; apply A.
-  - (* readLoop exit *)
-    cbn in H. unfold rl_step in H.
-    destruct (rl_started s) eqn:Hrs; cbn in H; [|discriminate].
-    destruct (gone s); cbn in H; [|discriminate].
-    destruct (rl_done s) eqn:Hrd; cbn in H; [discriminate|].
-    pose proof (a_f3 _ A Hrs) as Ho.
-    unfold fire_close in H. cbn in H.
-    destruct (close_fired s); cbn in H; inj H; constructor; cbn; auto;
-      try (apply A); try discriminate;
-      try (rewrite monotone_snoc, Hm; cbn; apply Nat.leb_le; apply rank_closed_max);
-      try (apply last_snoc); try (intros; congruence).
-  - (* Close *)
-    change (stepA s (S (S (S (S j))))) with
-      (match step s (4 + j) with
-       | Some s' => if in_window s' (4 + j) then step s' (4 + j) else Some s'
-       | None => None
-       end) in H.
-    cbn [step Nat.add] in H. unfold close_step in H at 1.
-    destruct (nth_error (closers s) j) as [c|] eqn:Hj; [|discriminate].
-    destruct c as [|h|h|].
-    + (* CStart *)
-      cbn in H. rewrite (nth_set_nth_same _ _ _ _ _ Hj) in H. inj H.
-      constructor; cbn; auto; try (apply A); try discriminate.
-      apply Forall_set_nth; [apply A|exact I].
-    + (* CCheck: check and store in one block *)
-      assert (graceful s = true) as Hg.
-      { destruct (graceful s) eqn:E; [reflexivity|].
-        pose proof (a_f2 _ A E) as Hf. rewrite Forall_forall in Hf.
-        specialize (Hf _ (nth_error_In _ _ Hj)). discriminate. }
-      destruct (rstate_eqb (rs s) Closed) eqn:Hc.
-      * cbn in H. rewrite (nth_set_nth_same _ _ _ _ _ Hj) in H. inj H.
-        constructor; cbn; auto; try (apply A); try (rewrite Hg; discriminate).
-        apply Forall_set_nth; [apply A|exact I].
-      * cbn in H. rewrite (nth_set_nth_same _ _ _ _ _ Hj) in H.
-        unfold close_step in H. cbn in H. rewrite (nth_set_nth_same _ _ _ _ _ Hj) in H.
-        assert (rs s <> Closed) as Hnc.
-        { intros E. rewrite E in Hc. discriminate. }
-        inj H. rewrite set_nth_twice.
-        constructor; cbn; auto; try (apply A); try (rewrite Hg; discriminate).
-        -- rewrite monotone_snoc, Hm, Hl. destruct (rs s); try reflexivity. congruence.
-        -- apply last_snoc.
-        -- apply Forall_set_nth; [apply A|exact I].
-        -- intros Hx. exfalso. apply Hnc. apply (a_f4 _ A Hx).
-    + (* CSet cannot be a resting position *)
-      exfalso. pose proof (a_cl _ A) as Hf. rewrite Forall_forall in Hf.
-      exact (Hf _ (nth_error_In _ _ Hj)).
-    + discriminate.
+  intros s r H. unfold store, dropped. cbn. rewrite H.
+  destruct r; reflexivity.
 Qed.
 
-Lemma invA_run : forall sch s, invA s -> invA (runA s sch).
+Lemma stores_closed : forall s s', stores s s' -> rs s = Closed -> rs s' = Closed.
 Proof.
-  induction sch as [|t rest IH]; intros s A; [exact A|].
-  cbn. destruct (stepA s t) eqn:Hs; [|apply IH; exact A].
-  apply IH. eapply invA_step; eauto.
+  intros s s' H. induction H as [s s' Hr Hh|s s1 s' r _ IH Hr Hh]; intros G.
+  - congruence.
+  - rewrite Hr. apply store_closed_stays. auto.
 Qed.
 
-Lemma monotone_partial : forall n sch,
-  let s := runA (init n) sch in
-  monotone s = true /\ (pc_done s = true \/ rl_done s = true -> rs s = Closed).
+Lemma closed_stable_step : forall c s t s',
+  rs s = Closed -> step post c s t = Some s' -> rs s' = Closed.
+Proof. intros c s t s' G H. eapply stores_closed; [eapply step_stores; eauto|exact G]. Qed.
+
+Lemma closed_stable_run : forall c sch s, rs s = Closed -> rs (run post c s sch) = Closed.
 Proof.
-  intros n sch s. assert (invA s) as A by (apply invA_run, invA_init).
-  split; [apply (a_mono _ A)|apply (a_f4 _ A)].
+  intros c sch s H. apply (run_inv post c (fun s => rs s = Closed)); [|exact H].
+  intros; eapply closed_stable_step; eauto.
 Qed.
 
-(* ---------- the guarded runs are runs of the faithful model ---------- *)
-Lemma run_app : forall a b s, run s (a ++ b) = run (run s a) b.
-Proof.
-  induction a as [|t r IH]; intros b s; [reflexivity|].
-  cbn [app run]. destruct (step s t); apply IH.
-Qed.
-
-Lemma stepA_is_run : forall s t s', stepA s t = Some s' -> exists sch, run s sch = s'.
-Proof.
-  intros s t s' H.
-  assert (forall u, (match step s u with
-                     | Some s1 => if in_window s1 u then step s1 u else Some s1
-                     | None => None
-                     end) = Some s' -> exists sch, run s sch = s') as G.
-  { intros u Hu. destruct (step s u) as [s1|] eqn:H1; [|discriminate].
-    destruct (in_window s1 u).
-    - exists [u; u]. cbn. rewrite H1, Hu. reflexivity.
-    - injection Hu as <-. exists [u]. cbn. rewrite H1. reflexivity. }
-  destruct t as [|t]; cbn [stepA] in H.
-  - destruct (pc_done s); [discriminate|]. apply (G 0 H).
-  - apply (G (S t) H).
-Qed.
-
-Lemma runA_is_run : forall sch s, exists sch', runA s sch = run s sch'.
-Proof.
-  induction sch as [|t rest IH]; intros s; [exists []; reflexivity|].
-  cbn. destruct (stepA s t) as [s'|] eqn:Hs; [|apply IH].
-  destruct (IH s') as [sch' E]. destruct (stepA_is_run _ _ _ Hs) as [pre Hp].
-  exists (pre ++ sch'). rewrite run_app, Hp. exact E.
-Qed.
-
-(* ---------- statements in the form used by Properties/C20.v ---------- *)
-Lemma refuted_close_window_ex :
-  exists nclose sch,
-    let s := run (init nclose) sch in
-    monotone s = false /\ hist s = [Closed; Closing] /\ rs s = Closing /\ pc_done s = true.
-Proof.
-  exists 1, [4; 4; 1; 4]. cbv zeta.
-  destruct refuted_close_window as (H1 & H2 & H3 & H4). repeat split; assumption.
-Qed.
-
-Lemma refuted_open_window_ex :
-  exists nclose sch,
-    let s := run (init nclose) sch in
-    monotone s = false /\ hist s = [Closing; Open] /\ rs s = Open /\ rl_started s = false.
-Proof.
-  exists 1, [0; 4; 4; 4; 0]. cbv zeta.
-  destruct refuted_open_window as (H1 & H2 & H3 & H4). repeat split; assumption.
-Qed.
-
-Lemma refuted_open_after_pcclose_ex :
-  exists sch, let s := run (init 0) sch in monotone s = false /\ hist s = [Closed; Open].
-Proof.
-  exists [0; 1; 0]. cbv zeta. destruct refuted_open_after_pcclose as (H1 & H2). auto.
-Qed.
-
-Lemma refuted_never_closed_ex :
-  exists sch,
-    let s := run (init 1) sch in
-    closers s = [CDone] /\ o_pc s = ODone /\ gone s = true /\ step s 3 = None /\
-    close_calls s = 1 /\ rs s = Closing.
-Proof.
-  exists [4; 4; 4; 0; 2; 3]. cbv zeta.
-  destruct refuted_never_closed as (H1 & H2 & H3 & H4 & H5 & H6 & H7).
-  repeat split; assumption.
-Qed.
+Lemma closed_is_final : forall c sch1 sch2,
+  rs (run post c (init c) sch1) = Closed -> rs (run post c (init c) (sch1 ++ sch2)) = Closed.
+Proof. intros c sch1 sch2 H. rewrite run_app. apply closed_stable_run. exact H. Qed.
